@@ -146,7 +146,7 @@ def step (st : St) (op : String) : St :=
 /-- one step, then the representation invariant is evaluated on the model tree (tag `wf-violated` if it fails) -/
 def stepChecked (st : St) (op : String) : St :=
   let st' := step st op
-  if wfRoots st'.tree.roots && hostOkRoots st'.tree.roots then st' else st'.tag "wf-violated"
+  if wfRoots st'.tree.roots && hostOkRoots st'.tree.roots && patOkRoots st'.tree.roots then st' else st'.tag "wf-violated"
 
 /-- fields: ["ops", "<op>;<op>;…"] -/
 def handle (fields : List String) : String :=
